@@ -1,21 +1,15 @@
 package replica
 
-import "github.com/openebs/jiva/types"
+import (
+	inject "github.com/openebs/jiva/error-inject"
+	"github.com/openebs/jiva/types"
+)
 
 // C07 (merge): after the snapshot files of a rebuilding replica have been made equal
 // to the source's (A-ssync), Server.UpdateLUNMap (real preload of a copy of the map +
 // locked merge with the live map) leaves the live volume reading exactly
 // "head over snapshots", with foreground writes accepted before the copy and in the
 // window between the unlocked preload and the locked merge.
-
-var zzMergeHook func()
-
-// redirect target for inject.AddUpdateLUNMapTimeout (empty in the default build)
-func zzUpdateLUNMapWindow() {
-	if zzMergeHook != nil {
-		zzMergeHook()
-	}
-}
 
 func (z *zzDisk) symWrite(tag string) {
 	total := z.B * z.U
@@ -69,7 +63,7 @@ func ZZ_C07_Merge() {
 	s := &Server{r: rep}
 	types.ShouldPunchHoles = zzNondetBool("punch")
 	during := zzNondetBool("write.during")
-	zzMergeHook = func() {
+	inject.ZZUpdateLUNMapHook = func() {
 		if during {
 			z.symWrite("w2")
 		}
@@ -80,7 +74,7 @@ func ZZ_C07_Merge() {
 	}
 	before := z.presence()
 	err := s.UpdateLUNMap()
-	zzMergeHook = nil
+	inject.ZZUpdateLUNMapHook = nil
 	zzAssert(err == nil, "C07.merge.UpdateLUNMap-error")
 	zzSettle()
 	img := z.image(F)
